@@ -15,8 +15,9 @@ let () = register "c14r" (fun args -> match args with
   | [fx; bl; off; len] ->
       let fx = (fx = "1") in
       let bs = c14_parse_blocks bl and off = z_of_string off and len = z_of_string len in
-      Printf.sprintf "bytes=%s crc=%s sum=%s mode=%s dist=%s"
+      Printf.sprintf "bytes=%s monte=%s crc=%s sum=%s mode=%s dist=%s"
         (c14_on hex (c14_addressed fx bs off len))
+        (c14_on (fun (m, i) -> string_of_n m ^ "/" ^ string_of_n i) (c14_monte fx bs off len))
         (c14_on string_of_n (c14_crc32 fx bs off len))
         (c14_on string_of_n (c14_checksum32 fx bs off len))
         (c14_on string_of_n (c14_mode fx bs off len))
@@ -56,7 +57,8 @@ let () = register "c14c" (fun args -> match args with
 let () = register "c14s" (fun args -> match args with
   | [s] ->
       let s = unhex s in
-      Printf.sprintf "crc=%s crcbit=%s sum=%s len=%s toint=%s"
+      Printf.sprintf "monte=%s crc=%s crcbit=%s sum=%s len=%s toint=%s"
+        (let (m, i) = c14_monte_str s in string_of_n m ^ "/" ^ string_of_n i)
         (string_of_n (c14_crc32_table s)) (string_of_n (c14_crc32_bitwise s)) (string_of_n (c14_checksum32_str s))
         (string_of_z (c14_length s)) (c14_on string_of_z (c14_to_int s))
   | _ -> "usage")
